@@ -293,6 +293,11 @@ Definition determine_current_priv_code : list dstmt :=
 (* channel/read.go processReadBuf *)
 Definition process_read_buf_code : list dstmt :=
   [DIf (DAtom "len(rb) <= searchDepth") [DReturn "rb"] []; DAssign "prb" "rb[len(rb)-searchDepth:]"; DAssign "partitionIdx" "bytes.Index(prb, []byte(""\n""))"; DIf (DAtom "partitionIdx > 0") [DAssign "prb" "prb[partitionIdx:]"] []; DReturn "prb"].
+(* driver/netconf/message.go message.serialize, its parameters, and the arguments of its one call in Driver.sendRPC *)
+Definition serialize_code : list dstmt :=
+  [DAssign "serialized" "&serializedInput{}"; DCall "xml.Marshal(m)"; DIf (DNot (DEq "err" "nil")) [DReturn "nil, err"] []; DIf (DNot (DAtom "excludeHeader")) [DAssign "msg" "append([]byte(xmlHeader), msg...)"] []; DIf (DAtom "forceSelfClosingTags") [DAssign "msg" "ForceSelfClosingTags(msg)"] []; DAssign "serialized.rawXML" "make([]byte, len(msg))"; DCall "copy(serialized.rawXML, msg)"; DSwitch "v" [(["V1Dot0"], [DAssign "msg" "append(msg, []byte(v1Dot0Delim)...)"]); (["V1Dot1"], [DAssign "msg" "append([]byte(fmt.Sprintf(""#%d\n"", len(msg))), msg...)"; DAssign "msg" "append(msg, []byte(""\n##"")...)"])]; DAssign "serialized.framedXML" "msg"; DReturn "serialized, nil"].
+Definition serialize_params : list string := ["v"; "forceSelfClosingTags"; "excludeHeader"].
+Definition serialize_call_args : list string := ["d.SelectedVersion"; "d.ForceSelfClosingTags"; "d.ExcludeHeader"].
 (* the option loops of the constructors (C19) *)
 Definition option_loops : list (string * dstmt) := [
   ("driver/generic/driver.go NewDriver",
